@@ -348,8 +348,8 @@ package cose
 
 //@ func (ProtectedHeader).Algorithm
 //@   ensures absent [C04, C12]: !has(asmap(h), 1) ==> err == ErrAlgorithmNotFound && result == 0
-//@   ensures present [C04, C12]: forall k any :: k in asmap(h) && isIntKey(k) && intOf(k) == 1 ==>
-//@         (algIsInt(asmap(h)[k]) ==> err == nil && result == algInt(asmap(h)[k]))
+//@   ensures present [C04, C12]: has(asmap(h), 1) ==> exists k any :: k in asmap(h) && isIntKey(k) && intOf(k) == 1
+//@      && (algIsInt(asmap(h)[k]) ==> err == nil && result == algInt(asmap(h)[k]))
 //@      && (asmap(h)[k] is string ==> err != nil && Is(err, ErrAlgorithmNotSupported))
 //@      && (!algIsInt(asmap(h)[k]) && !(asmap(h)[k] is string) ==> err == ErrInvalidAlgorithm)
 //@   ensures errs [C04]: err != nil ==> result == 0 && err != ErrAlgorithmMismatch && !Is(err, ErrAlgorithmMismatch)
@@ -357,24 +357,26 @@ package cose
 
 // alg parameter of a protected bucket, as the properties see it
 //@ spec algPresent(p ProtectedHeader) Bool = has(asmap(p), 1)
-//@ spec algAgrees(p ProtectedHeader, alg Algorithm) Bool = forall k any :: k in asmap(p) && isIntKey(k) && intOf(k) == 1 ==> algIsInt(asmap(p)[k]) && algInt(asmap(p)[k]) == alg
+// (header maps in the supported data model have unique labels after normalisation; the encoders refuse anything else)
+//@ spec uniqueLabels(h map[any]any) Bool = forall k1 any, k2 any :: k1 in h && k2 in h && isIntKey(k1) && isIntKey(k2) && intOf(k1) == intOf(k2) ==> k1 == k2
+//@ spec algAgrees(p ProtectedHeader, alg Algorithm) Bool = exists k any :: k in asmap(p) && isIntKey(k) && intOf(k) == 1 && algIsInt(asmap(p)[k]) && algInt(asmap(p)[k]) == alg
 //@ spec algIntMismatch(p ProtectedHeader, alg Algorithm) Bool = exists k any :: k in asmap(p) && isIntKey(k) && intOf(k) == 1 && algIsInt(asmap(p)[k]) && algInt(asmap(p)[k]) != alg
 
 //@ func (*Headers).ensureVerificationAlgorithm
 //@   requires nonnil: h != nil
-//@   ensures gate [C03, C04]: int64Labels(asmap(h.Protected)) && result == nil ==> algAgrees(h.Protected, alg) && (algPresent(h.Protected) || len(external) > 0)
-//@   ensures mismatch [C04]: int64Labels(asmap(h.Protected)) && algIntMismatch(h.Protected, alg) ==> result != nil && Is(result, ErrAlgorithmMismatch)
+//@   ensures gate [C03, C04]: result == nil ==> (algPresent(h.Protected) ==> algAgrees(h.Protected, alg)) && (algPresent(h.Protected) || len(external) > 0)
+//@   ensures mismatch [C04]: uniqueLabels(asmap(h.Protected)) && algIntMismatch(h.Protected, alg) ==> result != nil && Is(result, ErrAlgorithmMismatch)
 //@   ensures absent [C04]: !algPresent(h.Protected) && len(external) == 0 ==> result == ErrAlgorithmNotFound
-//@   ensures complete [C01, C07]: int64Labels(asmap(h.Protected)) && algAgrees(h.Protected, alg) && (algPresent(h.Protected) || len(external) > 0) ==> result == nil
+//@   ensures complete [C01, C07]: uniqueLabels(asmap(h.Protected)) && (algPresent(h.Protected) ==> algAgrees(h.Protected, alg)) && (algPresent(h.Protected) || len(external) > 0) ==> result == nil
 //@   modifies frame [C18]: nothing
 
 //@ func (*Headers).ensureSigningAlgorithm
 //@   requires nonnil: h != nil
-//@   ensures gate [C04]: int64Labels(asmap(old(h.Protected))) && result == nil ==> algAgrees(h.Protected, alg) && (algPresent(h.Protected) || len(external) > 0)
-//@   ensures mismatch [C04]: int64Labels(asmap(old(h.Protected))) && old(algIntMismatch(h.Protected, alg)) ==> result != nil && Is(result, ErrAlgorithmMismatch)
+//@   ensures gate [C04]: result == nil ==> (algPresent(h.Protected) ==> algAgrees(h.Protected, alg)) && (algPresent(h.Protected) || len(external) > 0)
+//@   ensures mismatch [C04]: old(uniqueLabels(asmap(h.Protected))) && old(algIntMismatch(h.Protected, alg)) ==> result != nil && Is(result, ErrAlgorithmMismatch)
 //@   ensures inject [C04]: result == nil && !old(algPresent(h.Protected)) && len(external) == 0 ==> old(h.RawProtected) == nil && int64(1) in asmap(h.Protected) && asmap(h.Protected)[int64(1)] == Algorithm(alg)
 //@   ensures absent_raw [C04]: !old(algPresent(h.Protected)) && len(external) == 0 && old(h.RawProtected) != nil ==> result == ErrAlgorithmNotFound
-//@   ensures unchanged [C04, C18, C20]: int64Labels(asmap(old(h.Protected))) && (result != nil || old(algPresent(h.Protected)) || len(external) > 0) ==> h.Protected == old(h.Protected) && mapdom(asmap(h.Protected)) == old(mapdom(asmap(h.Protected))) && mapval(asmap(h.Protected)) == old(mapval(asmap(h.Protected)))
+//@   ensures unchanged [C04, C18, C20]: (result != nil || old(algPresent(h.Protected)) || len(external) > 0) ==> h.Protected == old(h.Protected) && mapdom(asmap(h.Protected)) == old(mapdom(asmap(h.Protected))) && mapval(asmap(h.Protected)) == old(mapval(asmap(h.Protected)))
 //@   ensures raw_kept: h.RawProtected == old(h.RawProtected) && h.RawUnprotected == old(h.RawUnprotected) && h.Unprotected == old(h.Unprotected)
 //@   modifies frame [C18]: h.Protected, mapof(asmap(h.Protected))
 
@@ -389,9 +391,9 @@ package cose
 //@   ensures sound [C03, C20]: result == nil ==> m != nil && m.Payload != nil && len(m.Signature) > 0 && vepoch() == old(vepoch()) + 1
 //@   ensures verbatim [C02, C03, C20]: vepoch() == old(vepoch()) + 1 ==> m != nil
 //@         && result == verifier_verify(verifier, old(Sig1(ProtBytes(m.Headers), external, m.Payload)), old(bytes(m.Signature)))
-//@   ensures gate [C04]: m != nil && int64Labels(asmap(m.Headers.Protected)) && vepoch() != old(vepoch())
-//@         ==> algAgrees(m.Headers.Protected, verifier_alg(verifier)) && (algPresent(m.Headers.Protected) || len(external) > 0)
-//@   ensures mismatch [C04]: m != nil && m.Payload != nil && len(m.Signature) > 0 && int64Labels(asmap(m.Headers.Protected)) && algIntMismatch(m.Headers.Protected, verifier_alg(verifier))
+//@   ensures gate [C04]: m != nil && vepoch() != old(vepoch())
+//@         ==> (algPresent(m.Headers.Protected) ==> algAgrees(m.Headers.Protected, verifier_alg(verifier))) && (algPresent(m.Headers.Protected) || len(external) > 0)
+//@   ensures mismatch [C04]: m != nil && m.Payload != nil && len(m.Signature) > 0 && uniqueLabels(asmap(m.Headers.Protected)) && algIntMismatch(m.Headers.Protected, verifier_alg(verifier))
 //@         ==> result != nil && Is(result, ErrAlgorithmMismatch)
 //@   ensures precheck [C03]: (m == nil || m.Payload == nil || len(m.Signature) == 0) ==> result != nil && vepoch() == old(vepoch())
 //@   modifies frame [C18]: nothing
@@ -406,9 +408,9 @@ package cose
 //@   ensures err_slot [C20]: m != nil && err != nil ==> m.Signature == old(m.Signature)
 //@   ensures payload_kept [C20]: m != nil ==> m.Payload == old(m.Payload) && m.Headers.RawProtected == old(m.Headers.RawProtected)
 //@         && m.Headers.RawUnprotected == old(m.Headers.RawUnprotected) && m.Headers.Unprotected == old(m.Headers.Unprotected)
-//@   ensures gate [C04]: m != nil && int64Labels(asmap(old(m.Headers.Protected))) && epoch() != old(epoch())
-//@         ==> algAgrees(m.Headers.Protected, signer_alg(signer)) && (algPresent(m.Headers.Protected) || len(external) > 0)
-//@   ensures mismatch [C04]: m != nil && old(m.Payload) != nil && old(len(m.Signature)) == 0 && int64Labels(asmap(old(m.Headers.Protected))) && old(algIntMismatch(m.Headers.Protected, signer_alg(signer)))
+//@   ensures gate [C04]: m != nil && epoch() != old(epoch())
+//@         ==> (algPresent(m.Headers.Protected) ==> algAgrees(m.Headers.Protected, signer_alg(signer))) && (algPresent(m.Headers.Protected) || len(external) > 0)
+//@   ensures mismatch [C04]: m != nil && old(m.Payload) != nil && old(len(m.Signature)) == 0 && old(uniqueLabels(asmap(m.Headers.Protected))) && old(algIntMismatch(m.Headers.Protected, signer_alg(signer)))
 //@         ==> err != nil && Is(err, ErrAlgorithmMismatch) && epoch() == old(epoch())
 //@   ensures precheck [C20]: (m == nil || old(m.Payload) == nil || old(len(m.Signature)) > 0) ==> err != nil && epoch() == old(epoch())
 //@   modifies frame [C18]: m.Signature, m.Headers.Protected, mapof(asmap(m.Headers.Protected))
@@ -425,9 +427,9 @@ package cose
 //@   ensures sound [C03, C11, C20]: result == nil ==> s != nil && payload != nil && len(s.Signature) > 0 && bodyOK(protected) && vepoch() == old(vepoch()) + 1
 //@   ensures verbatim [C02, C03, C11, C20]: vepoch() == old(vepoch()) + 1 ==> s != nil
 //@         && result == verifier_verify(verifier, old(SigN(bytes(protected), ProtBytes(s.Headers), external, payload)), old(bytes(s.Signature)))
-//@   ensures gate [C04]: s != nil && int64Labels(asmap(s.Headers.Protected)) && vepoch() != old(vepoch())
-//@         ==> algAgrees(s.Headers.Protected, verifier_alg(verifier)) && (algPresent(s.Headers.Protected) || len(external) > 0)
-//@   ensures mismatch [C04]: s != nil && payload != nil && len(s.Signature) > 0 && bodyOK(protected) && int64Labels(asmap(s.Headers.Protected)) && algIntMismatch(s.Headers.Protected, verifier_alg(verifier))
+//@   ensures gate [C04]: s != nil && vepoch() != old(vepoch())
+//@         ==> (algPresent(s.Headers.Protected) ==> algAgrees(s.Headers.Protected, verifier_alg(verifier))) && (algPresent(s.Headers.Protected) || len(external) > 0)
+//@   ensures mismatch [C04]: s != nil && payload != nil && len(s.Signature) > 0 && bodyOK(protected) && uniqueLabels(asmap(s.Headers.Protected)) && algIntMismatch(s.Headers.Protected, verifier_alg(verifier))
 //@         ==> result != nil && Is(result, ErrAlgorithmMismatch)
 //@   ensures precheck [C03, C11]: (s == nil || payload == nil || len(s.Signature) == 0 || !bodyOK(protected)) ==> result != nil && vepoch() == old(vepoch())
 //@   modifies frame [C18]: nothing
@@ -442,9 +444,9 @@ package cose
 //@   ensures err_slot [C11, C20]: s != nil && err != nil ==> s.Signature == old(s.Signature)
 //@   ensures kept [C11, C20]: s != nil ==> s.Headers.RawProtected == old(s.Headers.RawProtected)
 //@         && s.Headers.RawUnprotected == old(s.Headers.RawUnprotected) && s.Headers.Unprotected == old(s.Headers.Unprotected)
-//@   ensures gate [C04]: s != nil && int64Labels(asmap(old(s.Headers.Protected))) && epoch() != old(epoch())
-//@         ==> algAgrees(s.Headers.Protected, signer_alg(signer)) && (algPresent(s.Headers.Protected) || len(external) > 0)
-//@   ensures mismatch [C04]: s != nil && payload != nil && old(len(s.Signature)) == 0 && bodyOK(protected) && int64Labels(asmap(old(s.Headers.Protected))) && old(algIntMismatch(s.Headers.Protected, signer_alg(signer)))
+//@   ensures gate [C04]: s != nil && epoch() != old(epoch())
+//@         ==> (algPresent(s.Headers.Protected) ==> algAgrees(s.Headers.Protected, signer_alg(signer))) && (algPresent(s.Headers.Protected) || len(external) > 0)
+//@   ensures mismatch [C04]: s != nil && payload != nil && old(len(s.Signature)) == 0 && bodyOK(protected) && old(uniqueLabels(asmap(s.Headers.Protected))) && old(algIntMismatch(s.Headers.Protected, signer_alg(signer)))
 //@         ==> err != nil && Is(err, ErrAlgorithmMismatch) && epoch() == old(epoch())
 //@   ensures precheck [C11, C20]: (s == nil || payload == nil || old(len(s.Signature)) > 0 || !bodyOK(protected)) ==> err != nil && epoch() == old(epoch())
 //@   modifies frame [C18]: s.Signature, s.Headers.Protected, mapof(asmap(s.Headers.Protected))
@@ -487,3 +489,74 @@ package cose
 //@   callsite positional [C11] (*Signature).Sign#1: arg0 == m.Signatures[idx] && arg2 == signers[idx] && arg4 == m.Payload && arg5 == external && arg3 == protected
 //@   callsite body_protected [C11, C02] (*Headers).MarshalProtected#1: arg0 == &m.Headers
 //@   modifies frame [C18]: anything
+
+// ===================================================================
+// headers.go: cross-bucket IV rule, marshal  (C13, C08, C09)
+// ===================================================================
+
+//@ spec CrossIV(p ProtectedHeader, u UnprotectedHeader) Bool = !(has(asmap(p), 5) && has(asmap(u), 6)) && !(has(asmap(p), 6) && has(asmap(u), 5))
+
+//@ func (*Headers).ensureIV
+//@   requires nonnil: h != nil
+//@   ensures iff [C05, C07, C13]: result == nil <==> CrossIV(h.Protected, h.Unprotected)
+//@   modifies frame [C18]: nothing
+
+//@ func (*Headers).marshal
+//@   requires nonnil: h != nil
+//@   ensures fun [C08, C09, C13]: result2 == nil ==> bytes(result0) == ProtBytes(*h) && bytes(result1) == UnprotBytes(*h) && len(result0) > 0 && len(result1) > 0
+//@   ensures cross [C13]: result2 == nil ==> CrossIV(h.Protected, h.Unprotected)
+//@   ensures raw_preferred [C09]: result2 == nil ==> (len(h.RawProtected) > 0 ==> result0 == h.RawProtected) && (len(h.RawUnprotected) > 0 ==> result1 == h.RawUnprotected)
+//@   ensures err_nil: result2 != nil ==> result0 == nil && result1 == nil
+//@   modifies frame [C18]: nothing
+
+// ===================================================================
+// sign1.go: encoding  (C08, C09, C20)
+// ===================================================================
+
+//@ spec Sign1Array(h Headers, payload []byte, sig []byte) CV = arr(cv_raw(ProtBytes(h)), cv_raw(UnprotBytes(h)), payloadcv(payload), cv_bstr(bytes(sig)))
+
+//@ func (*Sign1Message).getContent
+//@   ensures ok [C08, C09, C20]: result1 == nil ==> m != nil && len(m.Signature) > 0
+//@         && bytes(result0.Protected) == ProtBytes(m.Headers) && bytes(result0.Unprotected) == UnprotBytes(m.Headers)
+//@         && len(result0.Protected) > 0 && len(result0.Unprotected) > 0
+//@         && result0.Payload == m.Payload && result0.Signature == m.Signature
+//@   ensures cross [C13]: result1 == nil ==> CrossIV(m.Headers.Protected, m.Headers.Unprotected)
+//@   ensures refuses_empty [C11, C20]: (m == nil || len(m.Signature) == 0) ==> result1 != nil
+//@   modifies frame [C18]: nothing
+
+//@ func (*Sign1Message).MarshalCBOR
+//@   ensures fun [C08, C09]: err == nil ==> m != nil && bytes(result) == enc(cv_tag(18, Sign1Array(m.Headers, m.Payload, m.Signature))) && fresh(result) && len(result) > 0
+//@   ensures refuses_empty [C20]: err == nil ==> m != nil && len(m.Signature) > 0
+//@   ensures err_nil [C20]: err != nil ==> result == nil
+//@   modifies frame [C18]: nothing
+
+//@ func (*UntaggedSign1Message).MarshalCBOR
+//@   ensures fun [C08, C09]: err == nil ==> m != nil && bytes(result) == enc(Sign1Array(m.Headers, m.Payload, m.Signature)) && fresh(result) && len(result) > 0
+//@   ensures refuses_empty [C20]: err == nil ==> m != nil && len(m.Signature) > 0
+//@   ensures err_nil [C20]: err != nil ==> result == nil
+//@   modifies frame [C18]: nothing
+
+// ===================================================================
+// headers.go: label normalisation and lookup (C04, C08, C12, C13)
+// ===================================================================
+
+//@ func normalizeLabel
+//@   ensures ok_iff: result1 <==> labelOK(label)
+//@   ensures int_norm: isIntKey(label) && labelOK(label) ==> result0 is int64 && result0.(int64) == intOf(label)
+//@   ensures str_norm: label is string ==> result0 == label
+//@   ensures bad_nil: !result1 ==> result0 == nil
+//@   modifies frame [C18]: nothing
+
+//@ func lookupLabel
+//@   ensures iff: result1 <==> has(h, label)
+//@   ensures value: result1 ==> exists k any :: k in h && isIntKey(k) && intOf(k) == label && result0 == h[k]
+//@   ensures exact_first: int64(label) in h ==> result0 == h[int64(label)]
+//@   ensures absent_nil: !result1 ==> result0 == nil
+//@   modifies frame [C18]: nothing
+//@   loop 1 invariant none_yet: !(int64(label) in h) && (forall k any :: k in seen ==> !(isIntKey(k) && intOf(k) == label))
+
+//@ func hasLabel
+//@   requires hashable: any_hashable(label)
+//@   ensures int_iff: isIntKey(label) && labelOK(label) ==> (result <==> has(h, intOf(label)))
+//@   ensures other_iff: !(isIntKey(label) && labelOK(label)) ==> (result <==> label in h)
+//@   modifies frame [C18]: nothing
